@@ -16,16 +16,17 @@ out="$VERIF/mutation/$(echo "$file" | tr '/' '_').tsv"
 mkdir -p "$VERIF/mutation"
 n=$("$VERIF/bin/mutate" count "/repo/$file")
 start=0
-[ -f "$out" ] && start=$(wc -l < "$out")
+[ -f "$out" ] && [ -z "${VERIF_MUT_ONLY:-}" ] && start=$(wc -l < "$out")
 S="$(mktemp -d /tmp/verif-mut.XXXXXX)"
 trap 'rm -rf "$S"' EXIT
 pkgdir=$(dirname "$file")
 for ((k=start; k<n; k++)); do
+  if [ -n "${VERIF_MUT_ONLY:-}" ] && [[ " $VERIF_MUT_ONLY " != *" $k "* ]]; then continue; fi
   rm -rf "$S/repo" "$S/root"; mkdir -p "$S/root"
   rsync -a --exclude .git /repo/ "$S/repo/"
   desc=$("$VERIF/bin/mutate" apply "/repo/$file" $k 2>&1 >"$S/repo/$file" | tail -1)
   if ! (cd "$S/repo" && go build ./... >/dev/null 2>&1); then printf '%d\tnobuild\t%s\n' $k "$desc" >> "$out"; continue; fi
-  if ! (cd "$S/repo" && timeout 120 go test -vet=off -count=1 ./... >/dev/null 2>&1); then printf '%d\tkilled-by-tests\t%s\n' $k "$desc" >> "$out"; continue; fi
+  if ! (cd "$S/repo" && timeout 900 go test -vet=off -count=1 ./... >/dev/null 2>&1); then printf '%d\tkilled-by-tests\t%s\n' $k "$desc" >> "$out"; continue; fi
   status="SURVIVED"
   for spec in "$@"; do
     prop="${spec%%:*}"; runs=""; [[ "$spec" == *:* ]] && runs="${spec##*:}"
